@@ -149,7 +149,34 @@ def m_iter_next(view, t, av):
     whether an item exists depends on the remaining length only, the item on the content."""
     a0 = av[0] if av else Val()
     out = Val({("#d",): v_len(a0), ("0",): v_flat(a0), LEN: v_len(a0)})
+    shape = _item_shape((t["f"].get("self") or ""))
+    if shape == "enumerate":
+        # item = (position, element): the position counts the items taken so far and depends on lengths only
+        # (third path component: keeps the two tuple fields apart — flow.v_read merges *exactly* depth-2 siblings)
+        out = Val({("#d",): v_len(a0), ("0", "0", "#pos"): v_len(a0), ("0", "1", "#item"): v_flat(a0), LEN: v_len(a0)})
     return out, {}, ()
+
+
+_ITEM_PRESERVING = ("Rev<", "Skip<", "Take<", "Fuse<")
+
+
+def _item_shape(st):
+    """'enumerate' when the iterator type's items are `(usize, T)` pairs produced by `Enumerate` (looking through
+    adaptors that keep the item type)."""
+    st = st.strip()
+    while st.startswith("&"):
+        st = st[1:].lstrip()
+        if st.startswith("mut "):
+            st = st[4:].lstrip()
+    for _ in range(6):
+        seg = st.split("<", 1)[0].rsplit("::", 1)[-1] + "<"
+        if seg == "Enumerate<":
+            return "enumerate"
+        if seg in _ITEM_PRESERVING and "<" in st:
+            st = st.split("<", 1)[1]
+            continue
+        break
+    return None
 
 
 def model(view, t, argvals):
